@@ -91,6 +91,13 @@ usage:
 			return nil, fmt.Errorf("duplicated: %s", s[0])
 		}
 		seen[s[0]] = struct{}{}
+		if len(s) < 2 && s[0] != "readonly" {
+			switch s[0] {
+			case "columns", "entries_per_node", "node_cache_entries", "s3_bucket", "s3_endpoint", "s3_prefix":
+				return nil, fmt.Errorf("missing value: %s=...", s[0])
+			}
+			return nil, fmt.Errorf("unknown option: %s", s[0])
+		}
 		switch s[0] {
 		case "columns":
 			err = convertSchema(internal.UnquoteAll(s[1]), table)
